@@ -283,7 +283,7 @@ Definition check_prefix (c : clause) : bool :=
    variable = variable equality of c has a side that CheckRule counts as bound at that point. *)
 Definition alias_ok (st : cstate) (p : premise) : bool :=
   match p with
-  | PEq (TVar x) (TVar y) => Z.eqb x y || memZ x (cs_bound st) || memZ y (cs_bound st)
+  | PEq (TVar x) (TVar y) => memZ x (cs_bound st) || memZ y (cs_bound st)
   | _ => true
   end.
 Fixpoint alias_free_body (st : cstate) (origs ps : list premise) : bool :=
